@@ -173,10 +173,16 @@ class Site(object):
                                          [('WWW-Authenticate', 'Basic realm="x"')])
         if kind == 'drop':
             return 'drop', None
+        if kind == 'interim_forever':
+            # one interim response after the other, for as long as the client reads (each one is legal; RFC 7231 6.2)
+            return 'drop', ENDLESS_INTERIM
         if kind == 'raw':
             # arbitrary bytes (latin-1 text in d['data']); d.get('close') closes the connection afterwards
             return 'raw', d['data'].encode('latin-1')
         raise ValueError(kind)
+
+
+ENDLESS_INTERIM = b'<endless interim responses>'
 
 
 def _http(code, reason, body, ctype, extra=()):
@@ -324,10 +330,14 @@ class CrawlRun(object):
         cls, data = self.site.respond(host, port, path, hit)
         self.answer_log.append(n)
         self.log(e='resp', n=n, u=u, cls=cls, h=self.hidx_of(host, port, path))
-        if data is not None:
+        if data is not None and data is not ENDLESS_INTERIM:
             self.wire['http://%s%s%s' % (host, '' if port == 80 else ':%d' % port, path)] = data
         if data is None:
             ep.close()
+        elif data is ENDLESS_INTERIM:
+            ep.out.append(fakenet.Endless(lambda i: b'HTTP/1.1 10%d Wait\r\n\r\n' % (i % 4 if i % 4 != 1 else 0), 3000,
+                                          Runaway('interim responses')))
+            ep._pump_soon()
         else:
             d = self.site.lookup(host, port, path) or {}
             if self.split_answers and b'\r\n\r\n' in data and not data.endswith(b'\r\n\r\n'):
